@@ -35,7 +35,7 @@ Atoms
 from __future__ import annotations
 
 import ast
-from typing import Dict, FrozenSet, Iterator, List, Optional, Set, Tuple
+from typing import Any, Dict, FrozenSet, Iterator, List, Optional, Set, Tuple
 
 from .cfg import CFG, Node, cfg_of
 from .flow import reaching, target_names
@@ -104,6 +104,7 @@ class Values:
         self._field_busy: Set[Tuple[str, str]] = set()
         self._expr_busy: Set[Tuple[int, int]] = set()
         self._memo: Dict[Tuple[int, int], Val] = {}
+        self._alive: List[Any] = []
 
     # ------------------------------------------------------------------ params
     def param_roles(self, unit: Unit, name: str) -> Set[str]:
@@ -303,6 +304,7 @@ class Values:
         finally:
             self._expr_busy.discard(key)
         self._memo[key] = val
+        self._alive.append(d)
         return val
 
     def _def_value(self, unit: Unit, d: Node, ident: str) -> Val:
@@ -614,6 +616,9 @@ class Values:
         finally:
             self._expr_busy.discard(key)
         self._memo[key] = val
+        # keep the keyed objects alive: rules evaluate temporary AST copies (inlined locals, stripped
+        # casts), and a collected object's id() may be handed to a different expression later
+        self._alive.append((e, at))
         return val
 
     def _expr(self, unit: Unit, e: ast.AST, at: Optional[Node]) -> Val:
